@@ -529,6 +529,21 @@ def reshapes(case, ctx):
   require(np.array_equal(stk['a'], np.stack([f['a'] for f in forest]))
           and np.array_equal(stk['b'][0], np.stack([f['b'][0] for f in forest])),
           'stack_forest is not a leaf-wise stack')
+  # host-side metrics keep their dtype and value: 64-bit counters, Python
+  # floats (time stamps), float32, int32, bool
+  big = 2**31 + 7 + seed
+  forest2 = [{'count': np.int64(big + i), 't': 1.79e9 + i + 0.25,
+              'f32': np.float32(i) * 0.5, 'i32': np.int32(i), 'flag': i % 2 == 0,
+              'vec': np.arange(3, dtype=np.float64) + 16777217.0 + i}
+             for i in range(k)]
+  with sut('stack_forest(host metrics)'):
+    stk2 = common_utils.stack_forest(forest2)
+  for name in forest2[0]:
+    exp2 = np.stack([f[name] for f in forest2])
+    got2 = np.asarray(stk2[name])
+    require(got2.dtype == exp2.dtype and np.array_equal(got2, exp2), lambda:
+            f'stack_forest leaf {name!r}: got {got2!r} ({got2.dtype}), '
+            f'np.stack gives {exp2!r} ({exp2.dtype})')
   ncls = 1 + seed % 5
   labels = rng.integers(0, ncls, size=(per, *rest[:1]))
   on, off = float(seed % 3 + 1), float(-(seed % 2))
